@@ -322,5 +322,7 @@ pub fn run(tier: Tier, seed0: u64) -> i32 {
     report.sample("pin", json!({"pin": 1023456789u32, "grid_seed": 1, "layout": pin_layout(1).to_vec(), "hash": hex(&table[1])}));
     report.sample("pin", json!({"pin": 999, "expected": "no hash; verify false for every presented value including the un-gated hash"}));
     report.assume("salts: three values per byte lane plus boundary salts, not the whole salt space");
+    report.set("exhaustive", json!(false));
+    report.cap_hit("residues (and in the thorough tier all 2^32 seeds) are closed; PINs and salts are ranges/alphabets");
     report.finish()
 }
